@@ -115,6 +115,20 @@ theorem filter_store_generated_eq_model (s : KState τ σ) (r : ResId) (e : EvId
     runFStoreGet { r := r, e := e, m := (s.res r).items.find? (filterOk (reqOf s e).filter) } s = some (doGet s r e) :=
   fstore_get_run s r e hk
 
+/-- **the guards of the `_do_put` methods as written in the source are the model's `canPut`**, class by class: the bool a
+translated `_do_put` returns in state `s` is `canPut s r e` (`Resource`: free slot; `Container`: `capacity - level >= amount`;
+the stores: `len(items) < capacity`). -/
+theorem put_guards_generated_eq_model (s : KState τ σ) (r : ResId) (e : EvId) :
+    ((s.res r).kind = .resource ∨ (s.res r).kind = .priority ∨ (s.res r).kind = .preemptive →
+      (Gen.Resource.do_put (resObj (τ := τ) (s.res r)) (s.res r).users.length).ret = canPut s r e) ∧
+    ((s.res r).kind = .container →
+      (Gen.Container.do_put (contObj (τ := τ) (s.res r)) (reqOf s e).amount).ret = canPut s r e) ∧
+    ((s.res r).kind = .store ∨ (s.res r).kind = .fstore →
+      (Gen.Store.do_put (resObj (τ := τ) (s.res r)) (s.res r).items.length).ret = canPut s r e) ∧
+    ((s.res r).kind = .pstore →
+      (Gen.PriorityStore.do_put (resObj (τ := τ) (s.res r)) (s.res r).items.length).ret = canPut s r e) :=
+  ⟨fun hk => (resource_do_put_at s r e 0 hk).2, container_put_guard s r e, store_put_guard s r e, pstore_put_guard s r e⟩
+
 /-- **`Put.cancel` / `Get.cancel` as written in the source are the model's `cancelReq`**: nothing for a triggered request;
 otherwise remove it from its queue *and rescan that queue*.  (The request is in its queue - `queues_hold_pending_requests`,
 C07 - otherwise `list.remove` raises, which the model reports as `ValueError`.) -/
